@@ -38,7 +38,7 @@ ASSUMPTIONS = ['identity scans are diagnostics; the verdict is behavioural (a mu
 REQUIRED = {'quick': {'purity.calls': 10000, 'alias.step_pairs': 3000, 'alias.observation': 1500, 'history.step': 3000,
                       'history.observation': 1500, 'history.shortest_path': 100, 'history.rays': 60, 'copy.checked': 800,
                       'registry.purity': 5000, 'purity.component_calls': 3000, 'history.rebuild_equivalence': 500, 'pose.at_view_anchor': 30,
-                      'userdata.arrays': 40, 'userdata.step_answered': 40}}
+                      'userdata.arrays': 40, 'history.observation_order': 300, 'history.declarations': 40, 'userdata.step_answered': 40}}
 
 
 def scramble(state, rng):
@@ -415,6 +415,97 @@ def ray_history(ctx, rng):
             got[...] = False  # scribbling on a returned array must not matter next time
 
 
+def observation_history(ctx, rng, n):
+    """deterministic observation questions (state, view area, function) over small, mostly open worlds and views of every
+    kind (one column wide, agent in a corner of the view, agent outside the view), asked in shuffled orders: the answer to a
+    question is the same whatever was asked before it"""
+    qs = []
+    for k in range(n):
+        h, w = rng.randint(1, 6), rng.randint(1, 6)
+        state, _ = gen.rand_state(rng, [Floor, Wall, Door, Key], gen.COLORS, shape=(h, w), p_floor=rng.choice([0.6, 0.9, 1.0]))
+        kind = k % 4
+        if kind == 0:
+            area = Area((-rng.randint(0, 3), 0), (0, 0))                       # one column
+        elif kind == 1:
+            area = Area((-rng.randint(0, 3), 0), rng.choice([(0, 2), (-2, 0)]))  # agent in a bottom corner of its view
+        elif kind == 2:
+            area = gen.rand_area(rng, maxext=3, require_ymax0=True)
+        else:
+            area = gen.obs_space_area(rng)
+        for name in obsgen.DETERMINISTIC:
+            if obsgen.supported(name, area):
+                qs.append((name, area, state))
+    fns = {}
+    answers = {}
+    for rep in range(3):
+        order = list(range(len(qs)))
+        rng.shuffle(order)
+        for i in order:
+            name, area, state = qs[i]
+            fn = fns.get((name, area)) or fns.setdefault((name, area), obsgen.build_obs(name, area))
+            ok, obs = call_real(fn, state, rng=None)
+            ctx.ev()
+            ctx.hit('history.observation_order')
+            got = enc.es(obs) if ok else type(obs).__name__
+            if i in answers and answers[i] != got:
+                ctx.violation('history', f'observation.depends_on_query_history.{name}',
+                              f'{name} area {obsgen.area_json(area)}: the same state observed again after other observations gives a '
+                              f'different answer', 'obs_history_case', {'note': 'C03 observation_history', 'question': i})
+            answers.setdefault(i, got)
+
+
+def declaration_history(ctx, rng, n):
+    """the answer of one environment's functional step - a next state, or a refusal - does not depend on which other
+    environments (declaring other object types and colours) have been built in between"""
+    from gym_gridverse.debugging import reset_gv_debug
+    pool = [Floor, Wall, Key, Door, Exit, Box]
+    chain = compose.build('transition', {'name': 'chain', 'transition_functions': [{'name': n_} for n_ in workloads.TRANSITIONS]})
+
+    def make(types, shape):
+        return compose.assemble(shape, types, gen.COLORS, list(Action), chain, compose.build('reward', {'name': 'living_reward'}),
+                                compose.build('terminating', {'name': 'reach_exit'}),
+                                compose.build('observation', {'name': 'fully_transparent', 'area': [[-1, 0], [-1, 1]]}),
+                                Area((-1, 0), (-1, 1)), lambda rng=None: None)
+    for k in range(n):
+        shape = (rng.randint(2, 4), rng.randint(2, 4))
+        declared = rng.sample(pool, rng.randint(1, 3))
+        if Floor not in declared:
+            declared.append(Floor)
+        env = make(declared, shape)
+        # a state that may or may not conform: grid of declared types (every third time of any pool types), held item of any
+        # pool type
+        state, _ = gen.rand_state(rng, declared if (k + 1) % 3 else rng.sample(pool, 3) + [Floor], gen.COLORS, shape=shape)
+        state.agent.grid_object = gen.make_obj(rng, rng.choice([Key, Key, Door, Box, Wall, Exit]), gen.COLORS, [Floor, Key])
+        if (k + 1) % 4 == 0:
+            state.agent.grid_object = NoneGridObject()
+        action = rng.choice(list(Action))
+        was = reset_gv_debug(True)
+        try:
+            env.set_seed(1)
+            ok1, r1 = call_real(env.functional_step, dyndrive.copy_state(state), action)
+            ok1c, c1 = call_real(env.state_space.contains, state)
+            # other environments, declaring everything / other subsets, are built and used
+            for types in (pool, rng.sample(pool, 2) + [Floor]):
+                other = make(types, shape)
+                other.set_seed(2)
+                call_real(other.functional_step, dyndrive.copy_state(state), action)
+            env.set_seed(1)
+            ok2, r2 = call_real(env.functional_step, dyndrive.copy_state(state), action)
+            ok2c, c2 = call_real(env.state_space.contains, state)
+        finally:
+            reset_gv_debug(True)
+        ctx.ev()
+        ctx.hit('history.declarations')
+        a1 = (enc.es(r1[0]), repr(r1[1]), r1[2]) if ok1 else type(r1).__name__
+        a2 = (enc.es(r2[0]), repr(r2[1]), r2[2]) if ok2 else type(r2).__name__
+        if a1 != a2 or (ok1c and ok2c and c1 != c2):
+            ctx.violation('history', 'functional_step.depends_on_other_environments',
+                          f'environment declaring {[t.__name__ for t in declared]}: step {action.name} on the same state was '
+                          f'{"answered" if ok1 else "refused (" + str(a1) + ")"} before and {"answered" if ok2 else "refused (" + str(a2) + ")"} '
+                          f'after other environments were built (state_space.contains: {c1} then {c2})', 'decl_history_case',
+                          {'note': 'C03 declaration_history', 'k': k})
+
+
 def component_purity_sweep(ctx):
     """every built-in reward / termination component on directed triples (door
     in front, wall bump, pick, drop, ...): the registry purity hooks decide"""
@@ -470,6 +561,9 @@ def run(ctx):
     with Patch() as patch, reach(ctx, [fast_copy_mod.fast_copy, transition_fs.transition_with_copy, reward_fs.dijkstra,
                                        reward_fs.getting_closer_shortest_path]):
         install_registry_purity(ctx, patch)
+        # first thing in the process, before any other space or environment exists (state that accumulates across
+        # environments only shows while it is still empty)
+        declaration_history(ctx, gen.rng_for('C03decl0', ctx.seed, ctx.shard), 12)
         # random compositions: member states incl. nested boxes, held items, all door statuses x all actions
         for c in range(ctx.pick(200, 8000)):
             if not ctx.mine(c):
@@ -566,6 +660,8 @@ def run(ctx):
         component_purity_sweep(ctx)
         shortest_path_history(ctx, gen.rng_for('C03sp', ctx.seed, ctx.shard))
         ray_history(ctx, gen.rng_for('C03ray', ctx.seed, ctx.shard))
+        observation_history(ctx, gen.rng_for('C03obsh', ctx.seed, ctx.shard), ctx.pick(60, 600))
+        declaration_history(ctx, gen.rng_for('C03decl', ctx.seed, ctx.shard), ctx.pick(60, 800))
 
 
 def replay(ctx, kind, payload):
@@ -597,6 +693,12 @@ def replay(ctx, kind, payload):
                     compose.build('terminating', {'name': 'reach_exit'}),
                     compose.build('observation', {'name': obs_name, 'area': [[-3, 0], [-2, 2]]}), area, lambda rng=None: st0)
                 rebuild_equivalence(ctx, env, st0, 'replay', payload, True)
+            return
+        elif payload.get('note') == 'C03 observation_history':
+            observation_history(ctx, gen.rng_for('C03obsh', ctx.seed, 0), 60)
+            return
+        elif payload.get('note') == 'C03 declaration_history':
+            declaration_history(ctx, gen.rng_for('C03decl', ctx.seed, 0), 60)
             return
         else:
             shortest_path_history(ctx, rng)
